@@ -572,6 +572,30 @@ def translate_z_matrix(tree):
             f"def z2_value (norb nele k ll : Int) : Int := {val2}\n")
 
 
+def translate_string_address(tree):
+    """`FciGraph._build_string_address`: reviewed shape `Z = _get_Z_matrix(norb, nele)` followed by
+    `return sum(Z[i, occupation[i]] for i in range(nele))` (compared textually through ast.unparse); emitted as a sum over
+    `pyRange 0 nele` of the matrix entry at (i, occupation[i]), the matrix being a parameter."""
+    cdef = next((n for n in tree.body if isinstance(n, ast.ClassDef) and n.name == "FciGraph"), None)
+    fn = next((n for n in (cdef.body if cdef else []) if isinstance(n, ast.FunctionDef) and n.name == "_build_string_address"), None)
+    if fn is None:
+        raise Unsupported("fci_graph.py: FciGraph._build_string_address not found")
+    body = [n for n in fn.body if not (isinstance(n, ast.Expr) and isinstance(n.value, ast.Constant))]
+    got = [ast.unparse(n) for n in body]
+    want = ["Z = _get_Z_matrix(norb, nele)", "return sum((Z[i, occupation[i]] for i in range(nele)))"]
+    if got != want:
+        raise Unsupported(f"_build_string_address: reviewed shape not found: {got}")
+    if [a.arg for a in fn.args.args] != ["self", "nele", "norb", "occupation"]:
+        raise Unsupported("_build_string_address: parameters")
+    return (f"/-- `src/fqe/fci_graph.py`, `FciGraph._build_string_address` (line {fn.lineno}): `sum(Z[i, occupation[i]] for i in range(nele))`,\n"
+            "    `Z` = the matrix of `_get_Z_matrix(norb, nele)` as a function of (row, column); an index beyond the list is\n"
+            "    Python's IndexError (`none`) -/\n"
+            "def string_address (Z : Int → Int → Int) (nele norb : Int) (occupation : List Int) : Option Int :=\n"
+            "  if (pyRange (0 : Int) nele).all (fun i => decide (i.toNat < occupation.length)) then\n"
+            "    some (pySum (pyRange (0 : Int) nele) (fun i => Z i (occupation.getD i.toNat 0)))\n"
+            "  else none\n")
+
+
 def main():
     chunks = []
     known = {}
@@ -610,6 +634,8 @@ def main():
     summary.append(("mmes_entry", False))
     chunks.append(translate_z_matrix(ast.parse(open(os.path.join(REPO, "src/fqe/fci_graph.py")).read())))
     summary.append(("z_matrix", False))
+    chunks.append(translate_string_address(ast.parse(open(os.path.join(REPO, "src/fqe/fci_graph.py")).read())))
+    summary.append(("string_address", True))
     hdr = ("/-\n  GENERATED by harness/translate/pyint.py from the Python sources of /repo (bitstring.py, util.py,\n"
            "  _fqe_control.py).  Do not edit: regenerated on every check run.\n-/\n"
            "import FqeVerif.Lemmas.PyPrelude\nset_option linter.unusedVariables false\nnamespace GenPy\nopen PyPrelude\n\n")
